@@ -93,6 +93,82 @@ pub fn c01(ctx: &Ctx) {
 
 pub fn c02(_ctx: &Ctx) {}
 
+// ------------------------------------------------------------------ C03 / C04: decode differential for real types
+
+/// Arbitrary bytes decoded as a real (derive-generated / std) type must be accepted exactly when
+/// the reference decoder, driven only by the type's schema, accepts them, consume the same number
+/// of bytes and denote the same value (compared through canonical re-encoding).
+fn c03_one(ti: usize, input: &[u8], l: &mut Local) -> CaseResult {
+    let t = &types()[ti];
+    let (Some(rt), Some(schema)) = (t.roundtrip, owned_schema(t)) else { return Ok(()) };
+    let tree = schematree::from_owned(&schema);
+    let Some(shape) = dynmap::tree_to_shape(&tree) else { return Ok(()) };
+    let c = || json!({"corpus_type": t.name, "data": hex(input), "extreme": Json::Null, "corpus_prop": "C03", "corpus_seed": corpus::generated::SEED});
+    let reference = ref_decode(&shape, input);
+    if reference.as_ref().err() == Some(&crate::refcodec::DecErr::ZeroWidthSkip) {
+        l.skipped += 1;
+        return Ok(());
+    }
+    l.eval();
+    let got = no_panic(|| rt(input)).map_err(|p| fail("corpus-decode", format!("{}: decoding panicked: {}", t.name, p), c()))?;
+    match (&reference, &got) {
+        (Ok(d), Ok((re, consumed))) => {
+            let want = ref_encode(&shape, &d.value).map(|e| e.bytes).unwrap_or_default();
+            if *consumed != d.consumed || *re != want {
+                return Err(fail(
+                    "corpus-decode",
+                    format!("{}: input {} decoded to a value that re-encodes as {} ({} bytes consumed); the schema-driven reference gives {} ({} bytes)", t.name, hex(input), hex(re), consumed, hex(&want), d.consumed),
+                    c(),
+                ));
+            }
+            l.class("corpus-decode-accepted");
+            if d.noncanonical || d.consumed < input.len() {
+                l.nontrivial(&(t.name.as_str(), input, 3u8));
+            }
+        }
+        (Err(_), Err(_)) => {
+            l.class("corpus-decode-rejected");
+            l.nontrivial(&(t.name.as_str(), input, 3u8));
+        }
+        (Ok(d), Err(e)) => {
+            return Err(fail("corpus-decode", format!("{}: rejected ({}) input {} which the specification allows for its schema ({} bytes)", t.name, e, hex(input), d.consumed), c()))
+        }
+        (Err(k), Ok((re, _))) => {
+            return Err(fail("corpus-decode", format!("{}: accepted input {} (re-encodes as {}) which the specification rejects with {:?}", t.name, hex(input), hex(re), k), c()))
+        }
+    }
+    Ok(())
+}
+
+pub fn c03(ctx: &Ctx) {
+    let n = ctx.tier.pick(300_000, 4_000_000);
+    // valid encodings of generated values with a few bytes damaged, and raw random bytes
+    ctx.par_proptest(
+        "corpus-types-decode-differential",
+        n,
+        || (arb_case(|t| t.strict_decode && t.roundtrip.is_some() && t.schema.is_some()), proptest::collection::vec((any::<u16>(), any::<u8>()), 0..3), any::<bool>()),
+        |((ti, d), dmg, raw), l| {
+            let t = &types()[*ti];
+            if *raw {
+                return c03_one(*ti, d, l);
+            }
+            let Some(v) = value(t, d, None, false) else { return Ok(()) };
+            let Ok(mut b) = v.bytes() else { return Ok(()) };
+            c03_one(*ti, &b, l)?;
+            if b.is_empty() {
+                return Ok(());
+            }
+            for (p, x) in dmg {
+                let i = crate::gen::pick_idx(*p, b.len());
+                b[i] = *x;
+            }
+            c03_one(*ti, &b, l)?;
+            let cut = crate::gen::pick_idx(dmg.first().map_or(0, |d| d.0), b.len());
+            c03_one(*ti, &b[..cut], l)
+        },
+    );
+}
+
 // ------------------------------------------------------------------ C12
 
 fn c12_one(ti: usize, data: &[u8], extreme: Option<usize>, l: &mut Local) -> Result<usize, crate::runner::Fail> {
@@ -407,6 +483,7 @@ pub fn replay_corpus(case: &Json, l: &mut Local) -> Option<CaseResult> {
     let ex = case["extreme"].as_u64().map(|e| e as usize);
     Some(match prop {
         "C01" => c01_one(ti, &data, ex, l),
+        "C03" => c03_one(ti, &data, l),
         "C12" => c12_replay(case, l),
         "C14" => c14_one(ti, &data, ex, l),
         "C17" => c17_one(ti, &data, ex, l),
